@@ -31,6 +31,9 @@ for line in sys.stdin:
         break
     out = {}
     kerneldll.ALLOW_SINGLE_PRECISION_DLLS = not cmd.get("noflag")
+    if cmd.get("interrupt"):
+        # the user interrupts this load while the definition file is being executed (if it is executed at all)
+        os.environ["RTM17_INTERRUPT"] = "1"
     try:
         q = np.array([0.1, 0.2, 0.3, 0.4, 0.5, 0.6])
         if cmd.get("ngauss"):
@@ -56,6 +59,15 @@ for line in sys.stdin:
             model = core.load_model(expr, dtype=cmd["dtype"], platform="dll")
             I = direct_model.call_kernel(model.make_kernel([q]), {"background": 0.0, "A_scale": 1.0, "B_scale": 0.0})
             out["values"] = [float(v) for v in I]
+        elif cmd.get("via") == "twin":
+            # the plugin plus a file of the same name kept in another directory (an older copy), as the two terms of a sum
+            twin = os.path.join(os.path.dirname(os.path.dirname(plugin)), "twin", os.path.basename(plugin))
+            model = core.load_model(plugin + "+" + twin, dtype=cmd["dtype"], platform="dll")
+            kern = model.make_kernel([q])
+            I = direct_model.call_kernel(kern, {"background": 0.0, "A_scale": 1.0, "B_scale": 0.0})
+            out["values"] = [float(v) for v in I]
+            I2 = direct_model.call_kernel(kern, {"background": 0.0, "A_scale": 0.0, "B_scale": 1.0})
+            out["values_twin"] = [float(v) for v in I2]
         elif cmd.get("via") == "composite":
             # the plugin as one component of a model expression whose other component is flagged double-only
             model = core.load_model(plugin + "+hardsphere", dtype=cmd["dtype"], platform="dll")
@@ -77,10 +89,14 @@ for line in sys.stdin:
             out["values"] = [float(v) for v in I]
             out["dll"] = os.path.basename(model.dllpath)
         out["package"] = os.path.dirname(core.__file__)
+    except KeyboardInterrupt:
+        out["interrupted"] = True
     except Exception as exc:
         import traceback
         out["error"] = repr(exc)[:400]
         out["tb"] = traceback.format_exc()[-1200:]
+    finally:
+        os.environ.pop("RTM17_INTERRUPT", None)
     out["make_dll_log"] = list(log)
     del log[:]
     print("RTM17 " + json.dumps(out))
